@@ -42,6 +42,9 @@ def run(chk, repo, tier):
     with chk.guard('C16-i', 'detector.collect_charge_bayer'):
         bayer_tiling_rule(chk, repo, 'C16-i')
     # ------------------------------------------------------------ C16-a / b
+    from .extra_rules import sample_order_rule, bayer_string_rule
+    sample_order_rule(chk, repo, 'C16-b')
+    bayer_string_rule(chk, repo, 'C16-i')
     # the efficiency look-up (qe_asarray or whatever does its job) is evaluated with the function
     spectrum = repo.cls('radiometry.Spectrum')
     inl = ['detector.qe_asarray'] if repo.has_func('detector.qe_asarray') else []
